@@ -25,7 +25,7 @@ def ec_arg_class(p, arg):
                     and init.get('args') and enum_of(core(init['args'][0])):
                 return ('literal', enum_of(core(init['args'][0])))
             return ('local', x.get('n'))
-        if k in ('paramof', 'icast', 'cast', 'move', 'defarg'):
+        if k in ('paramof', 'icast', 'cast', 'move', 'defarg', 'retof'):
             x = x.get('e')
         elif k == 'ctor' and x.get('cls') == 'error_code' and len(x.get('args', [])) == 1 and x.get('copy'):
             x = x['args'][0]
